@@ -1,6 +1,7 @@
 package checks
 
 import (
+	"fmt"
 	"strings"
 
 	"verif/core"
@@ -34,7 +35,7 @@ func init() {
 	core.Register(&core.Check{
 		ID:    "C19",
 		Level: "exploration",
-		Rule: "inputs are all sequences of up to k atoms from the text alphabet (mode switches, directive names and prefixes, CRLF, UTF-8, quotes) and from the lexeme alphabet, plus seeded random atom strings up to 400 bytes; " +
+		Rule: "inputs are all sequences of up to k atoms from the text alphabet (mode switches, directive names and prefixes, CRLF, UTF-8, quotes) and from the lexeme alphabet, the lexeme sequences again behind 11 leading byte sequences (byte order marks, NUL and control bytes, zero-width and non-breaking spaces, line separators), plus seeded random atom strings up to 400 bytes; " +
 			"every input is lexed by the real lexer and each token is compared with an independent (line, column) <-> offset table: order, no overlap, start/end = first/last byte, covered bytes = token text, gaps = whitespace in code or comments, " +
 			"EOF just past the last byte, lexer counters (verif hook) = table, and Position.Contains for every cursor of the input. distinct_nontrivial = distinct inputs (by hash) with at least 2 tokens before EOF",
 		Assumptions: []string{
@@ -53,6 +54,13 @@ func init() {
 			odd := []string{"{{", "}}", "@if(", ")", "x", "1", " ", "\n", "\xa0", "\x85", "\v", "\f", "\xc2\xa0", "\t", "\r", "\"", "+"}
 			secs = append(secs, seqSections("odd-bytes-", odd, lk+1, run)...)
 			secs = append(secs, seqSections("moredir-", append(append([]string{}, MoreDirectiveAtoms...), "\\", "(", " ", "x"), 2, run)...)
+			// inputs that start with bytes an editor or a tool may put in front: a byte order mark, NUL and
+			// control bytes, zero-width and other non-ASCII characters
+			heads := []string{"\xef\xbb\xbf", "\xff\xfe", "\x00", "\x01", "\xe2\x80\x8b", "\xc2\xa0", "\u2028", "\x1b[0m", "\r", "\n", "\t"}
+			for _, h := range heads {
+				h := h
+				secs = append(secs, seqSections(fmt.Sprintf("head-%x-", h), LexemeAtoms, 2, func(c *core.Ctx, s string) { run(c, h+s) })...)
+			}
 			all := allAtoms()
 			secs = append(secs, core.Section{Name: "random", N: nrand, Run: func(c *core.Ctx, i int) {
 				run(c, randomAtomString(c.Rng, all, maxb))
